@@ -8,7 +8,7 @@ CONSTANTS
     MaxN = 6
     Ks = {3}
     MaxIters = {1}
-    LCM = 60
+    FullLayer = FALSE
     ShowSwap = FALSE
     RowSum = 0
     ShowEmpty = TRUE
